@@ -216,6 +216,43 @@ def purge_covers_all(ctx: Any, R: str) -> List[Ob]:
     return [ob(R, rm, pops[0] if pops else 'pending.answers.pop(record, None)', 'removal tolerates absent records and covers every queued group and every record (no early exit from either loop)', good, why)]
 
 
+def flush_timer_cancel_obligations(ctx: Any, R: str) -> List[Ob]:
+    """The other half of the queue-timer liveness: async_add arms a flush only when the queue was empty, so whoever cancels a
+    pending flush must leave the queue empty (or arm a new flush) on every path -- groups left behind, even emptied ones, keep
+    the queue non-empty and no flush would ever be armed again."""
+    prog = ctx.prog
+    q = prog.cls('zeroconf._handlers.multicast_outgoing_queue.MulticastOutgoingQueue')
+    obs: List[Ob] = []
+    handles: Set[str] = set()
+    for m in q.methods.values():
+        me = m.params[0] if m.params else 'self'
+        for t, st in attr_stores(m.node):
+            if self_attr(t, me) and isinstance(st, ast.Assign) and isinstance(st.value, ast.Call) and call_name(st.value) in ('call_at', 'call_later'):
+                handles.add(t.attr)
+    n_sites = 0
+    for m in q.methods.values():
+        me = m.params[0] if m.params else 'self'
+        cfg = cfg_of(m.node)
+        for n in cfg.nodes:
+            for c in n.calls():
+                if call_name(c) == 'cancel' and isinstance(c.func, ast.Attribute) and (self_attr(c.func.value, me) in handles or (isinstance(c.func.value, ast.Name) and any(isinstance(v, ast.Attribute) and self_attr(v, me) in handles for v in (local_defs(m).get(c.func.value.id) or []) if v is not None))):
+                    n_sites += 1
+
+                    def settles(x: Any, me: str = me) -> bool:
+                        for y in x.calls():
+                            if call_name(y) == 'clear' and isinstance(y.func, ast.Attribute) and self_attr(y.func.value, me) == 'queue':
+                                return True
+                            if call_name(y) in ('call_at', 'call_later'):
+                                return True
+                        return x.kind == 'stmt' and isinstance(x.ast, ast.Assign) and any(self_attr(t, me) == 'queue' for t in x.ast.targets)
+
+                    w = cfg.path_avoiding(n, lambda x: x is cfg.exit, settles)
+                    obs.append(ob(R, m, c, 'a cancelled flush leaves the queue empty or a new flush armed on every path (the queue arms a flush only when it was empty)', w is None, 'the pending flush is cancelled while groups stay in the queue: no flush is ever armed again and every later aggregated answer is queued for good' if w is not None else ''))
+    if n_sites == 0:
+        obs.append(ob(R, q, 'no cancel() of the flush timer', 'nothing cancels a pending flush of the outgoing queue (the flush itself decides whether to re-arm)', True))
+    return obs
+
+
 @rule('C12.WIRING', 'D', expect_min=8)
 def wiring(ctx: Any) -> List[Ob]:
     """Flush logic of the queue and the truncated-query timer: the flush waits for
@@ -349,6 +386,7 @@ def wiring(ctx: Any) -> List[Ob]:
         if not (armed or empty):
             bad_paths.append(' -> '.join(f'{n.line}' for n, _ in path if n.line))
     obs.append(ob(R, rdy, f'{n_paths} path(s) through the flush', 'every path leaves the queue empty or the flush timer armed (a queued group is never stranded without a timer)', n_paths > 0 and not bad_paths, 'path through lines ' + '; '.join(bad_paths[:3])))
+    obs.extend(flush_timer_cancel_obligations(ctx, R))
     obs.extend(purge_covers_all(ctx, R))
     # TC timer
     hq = prog.func(LS + '.handle_query_or_defer')
